@@ -121,7 +121,7 @@ func propC05(r *kernel.Run) {
 		var stateBytes []byte
 		if withState {
 			st := mkStruct(r, 2+tp.Draw(2))
-			stateBytes, _ = proto.Marshal(st)
+			stateBytes = detMarshal(st)
 			req.ClientState = stateBytes
 			if stateSigner != nil {
 				req.ClientStateSignature = ed25519.Sign(stateSigner.Priv, stateBytes)
